@@ -210,16 +210,23 @@ static int pick_fault(FdInfo *fi, size_t n, int is_write) {
     errno = e;                                                                                               \
     return r;
 
+static int wd_fd = -1;
+static ssize_t wd_read(void *buf, size_t n);
+static ssize_t wd_write(const void *buf, size_t n);
 ssize_t __wrap_read(int fd, void *buf, size_t n) {
+    if (fd >= 0 && fd == wd_fd) return wd_read(buf, n);
     GENERIC("read", 0, __real_read(fd, buf, n), __real_read(fd, buf, k))
 }
 ssize_t __wrap_write(int fd, const void *buf, size_t n) {
+    if (fd >= 0 && fd == wd_fd) return wd_write(buf, n);
     GENERIC("write", 1, __real_write(fd, buf, n), __real_write(fd, buf, k))
 }
 ssize_t __wrap_recv(int fd, void *buf, size_t n, int flags) {
+    if (fd >= 0 && fd == wd_fd) return wd_read(buf, n);
     GENERIC("recv", 0, __real_recv(fd, buf, n, flags), __real_recv(fd, buf, k, flags))
 }
 ssize_t __wrap_send(int fd, const void *buf, size_t n, int flags) {
+    if (fd >= 0 && fd == wd_fd) return wd_write(buf, n);
     GENERIC("send", 1, __real_send(fd, buf, n, flags), __real_send(fd, buf, k, flags))
 }
 ssize_t __wrap_recvfrom(int fd, void *buf, size_t n, int flags, struct sockaddr *a, socklen_t *al) {
@@ -266,9 +273,18 @@ static int count_pending(int dump) {
     return n;
 }
 
+static int wd_inject = 0;
+static uint32_t wd_inject_mask = 0;
+static void *wd_inject_ptr = NULL;
 int __wrap_epoll_wait(int epfd, struct epoll_event *events, int maxevents, int timeout) {
     c16_init();
     if (epfd != janet_vm.epoll) return __real_epoll_wait(epfd, events, maxevents, timeout);
+    if (wd_inject && maxevents > 0) {           /* --worddrive: the kernel's answer is ONE injected event word for the stream under test */
+        wd_inject = 0;
+        events[0].events = wd_inject_mask;
+        events[0].data.ptr = wd_inject_ptr;
+        return 1;
+    }
     int r = __real_epoll_wait(epfd, events, maxevents, 0);
     if (r != 0 || timeout == 0) return r;
     int pend = count_pending(0);
@@ -651,6 +667,281 @@ static int netdrive_main(int argc, char **argv) {
     return 0;
 }
 
+
+/* ------------------------------------------------------------------ readiness dispatch driven in process (D lines)
+ * `c16io --worddrive <seed> <cases>` / `--wordseq` (cases on stdin): a read operation (ev_callback_read, StateRead built as
+ * janet_ev_read_generic builds it) and / or a write operation (ev_callback_write) are registered on one stream with
+ * janet_async_start_fiber; then epoll event WORDS are injected: the wrapped epoll_wait hands janet_loop1_impl exactly one event
+ * {word, stream} and the real dispatch block of janet_loop1_impl runs.  read/recv/write/send on the descriptor are answered from a
+ * plan (b<k> = k bytes, a = EAGAIN, i = EINTR, e<c> = errno c; an exhausted plan answers EAGAIN) -- the answers actually given are
+ * printed, so the Lean model (`DW` command of jm_c16, table = regenerated Gen.Dispatch) is driven by the same answers.  After every
+ * step: what was scheduled for each fiber, StateRead / StateWrite fields, buffer count, the calls made (offset:length:transferred).
+ * Case syntax:   D <r|-> <chunk> <recv> <n> <base> <w|-> <send> <len> | <word> r=<ans,..> w=<ans,..> | ...   (first step: word = I, the INIT events) */
+typedef struct { char k; int v; } WdAns;
+#define WD_MAXANS 64
+static WdAns wd_rplan[WD_MAXANS], wd_wplan[WD_MAXANS];
+static int wd_rn = 0, wd_ri = 0, wd_wn = 0, wd_wi = 0;
+static JanetBuffer *wd_buf = NULL;
+static const uint8_t *wd_src = NULL;
+static int32_t wd_srclen = 0;
+static long wd_rpos = 0;                 /* bytes of the arrival pattern handed out so far */
+static uint8_t wd_sink[1 << 16];
+static long wd_sinklen = 0;
+static char wd_rlog[8192], wd_wlog[8192], wd_ralog[2048], wd_walog[2048];
+static uint8_t wd_pat(long i) { return (uint8_t)((i * 7 + 3) % 251); }
+
+static void wd_app(char *dst, size_t cap, const char *fmt, ...) {
+    size_t l = strlen(dst);
+    va_list ap;
+    va_start(ap, fmt);
+    if (l + 1 < cap) vsnprintf(dst + l, cap - l, fmt, ap);
+    va_end(ap);
+}
+
+static ssize_t wd_answer(WdAns a, size_t n, char *alog, size_t cap, long *got) {
+    *got = 0;
+    switch (a.k) {
+        case 'b': *got = (long) a.v < (long) n ? a.v : (long) n; wd_app(alog, cap, "%sb%d", alog[0] ? "," : "", a.v); return *got;
+        case 'i': wd_app(alog, cap, "%si", alog[0] ? "," : ""); errno = EINTR; return -1;
+        case 'e': wd_app(alog, cap, "%se%d", alog[0] ? "," : "", a.v); errno = a.v; return -1;
+        default: wd_app(alog, cap, "%sa", alog[0] ? "," : ""); errno = EAGAIN; return -1;
+    }
+}
+
+static ssize_t wd_read(void *buf, size_t n) {
+    WdAns a = { 'a', 0 };
+    if (wd_ri < wd_rn) a = wd_rplan[wd_ri++];
+    long got;
+    int e;
+    ssize_t r = wd_answer(a, n, wd_ralog, sizeof wd_ralog, &got);
+    e = errno;
+    for (long i = 0; i < got; i++) ((uint8_t *) buf)[i] = wd_pat(wd_rpos + i);
+    wd_rpos += got;
+    wd_app(wd_rlog, sizeof wd_rlog, "%s%ld:%zu:%ld", wd_rlog[0] ? "," : "", wd_buf ? (long)((uint8_t *) buf - wd_buf->data) : -1L, n, got);
+    errno = e;
+    return r;
+}
+
+static ssize_t wd_write(const void *buf, size_t n) {
+    WdAns a = { 'a', 0 };
+    if (wd_wi < wd_wn) a = wd_wplan[wd_wi++];
+    long got;
+    int e;
+    ssize_t r = wd_answer(a, n, wd_walog, sizeof wd_walog, &got);
+    e = errno;
+    for (long i = 0; i < got && wd_sinklen < (long) sizeof wd_sink; i++) wd_sink[wd_sinklen++] = ((const uint8_t *) buf)[i];
+    wd_app(wd_wlog, sizeof wd_wlog, "%s%ld:%zu:%ld", wd_wlog[0] ? "," : "", wd_src ? (long)((const uint8_t *) buf - wd_src) : -1L, n, got);
+    errno = e;
+    return r;
+}
+
+static int wd_parse_plan(const char *s, WdAns *plan) {
+    int n = 0;
+    while (*s && n < WD_MAXANS) {
+        plan[n].k = *s++;
+        plan[n].v = 0;
+        if (plan[n].k == 'b' || plan[n].k == 'e') plan[n].v = (int) strtol(s, (char **) &s, 10);
+        n++;
+        if (*s == ',') s++;
+    }
+    return n;
+}
+
+static void wd_tasks(JanetFiber *rf, JanetFiber *wf, char *rout, char *wout, size_t cap) {
+    JanetTask t;
+    rout[0] = wout[0] = 0;
+    while (!janet_q_pop(&janet_vm.spawn, &t, sizeof(t))) {
+        char *dst = t.fiber == rf ? rout : t.fiber == wf ? wout : NULL;
+        if (dst) {
+            const char *sg = t.sig == JANET_SIGNAL_OK ? "ok" : t.sig == JANET_SIGNAL_ERROR ? "err" : "sig?";
+            if (janet_checktype(t.value, JANET_NIL)) wd_app(dst, cap, "%s%s:nil", dst[0] ? "+" : "", sg);
+            else if (janet_checktype(t.value, JANET_BUFFER)) wd_app(dst, cap, "%s%s:buf", dst[0] ? "+" : "", sg);
+            else if (janet_checktype(t.value, JANET_STRING)) {
+                wd_app(dst, cap, "%s%s:\"", dst[0] ? "+" : "", sg);
+                for (const uint8_t *c = janet_unwrap_string(t.value); *c; c++) wd_app(dst, cap, "%c", *c == ' ' ? '_' : *c);
+                wd_app(dst, cap, "\"");
+            } else wd_app(dst, cap, "%s%s:other", dst[0] ? "+" : "", sg);
+        }
+        janet_table_remove(&janet_vm.active_tasks, janet_wrap_fiber(t.fiber));
+    }
+    if (!rout[0]) strcpy(rout, "-");
+    if (!wout[0]) strcpy(wout, "-");
+}
+
+/* one case; steps[0] is the INIT step.  Returns after the last step or when no operation is registered any more. */
+static void wd_run_case(JanetFunction *fn, int has_r, int chunk, int recv, int32_t n, int32_t base, int has_w, int snd, int32_t len,
+                        int nsteps, const uint32_t *words, char **rplans, char **wplans) {
+    int sp[2];
+    if (socketpair(AF_UNIX, SOCK_STREAM | SOCK_NONBLOCK | SOCK_CLOEXEC, 0, sp)) { printf("SETUP-FAILED socketpair\n"); exit(3); }
+    JanetStream *st = janet_stream(sp[0], JANET_STREAM_READABLE | JANET_STREAM_WRITABLE | JANET_STREAM_SOCKET, NULL);
+    janet_gcroot(janet_wrap_abstract(st));
+    JanetFiber *rf = NULL, *wf = NULL;
+    wd_buf = NULL; wd_src = NULL; wd_rpos = 0; wd_sinklen = 0;
+    JanetBuffer *buf = janet_buffer(16);
+    janet_gcroot(janet_wrap_buffer(buf));
+    for (int32_t i = 0; i < base; i++) janet_buffer_push_u8(buf, 0xEE);
+    uint8_t *srcbytes = janet_string_begin(len);
+    for (int32_t i = 0; i < len; i++) srcbytes[i] = (uint8_t)((i * 11 + 5) % 253);
+    const uint8_t *src = janet_string_end(srcbytes);
+    janet_gcroot(janet_wrap_string(src));
+    printf("D %s %d %d %d %d %s %d %d", has_r ? "r" : "-", chunk, recv, n, base, has_w ? "w" : "-", snd, len);
+    wd_fd = sp[0];
+    for (int s = 0; s < nsteps; s++) {
+        wd_rn = wd_parse_plan(rplans[s], wd_rplan); wd_ri = 0;
+        wd_wn = wd_parse_plan(wplans[s], wd_wplan); wd_wi = 0;
+        wd_rlog[0] = wd_wlog[0] = wd_ralog[0] = wd_walog[0] = 0;
+        if (s == 0) {
+            if (has_r) {
+                rf = janet_fiber(fn, 64, 0, NULL);
+                janet_gcroot(janet_wrap_fiber(rf));
+                StateRead *state = janet_malloc(sizeof(StateRead));       /* as janet_ev_read_generic */
+                state->is_chunk = chunk;
+                state->buf = buf;
+                state->bytes_left = n;
+                state->bytes_read = 0;
+                state->mode = recv ? JANET_ASYNC_READMODE_RECV : JANET_ASYNC_READMODE_READ;
+                state->flags = 0;
+                wd_buf = buf;
+                janet_async_start_fiber(rf, st, JANET_ASYNC_LISTEN_READ, ev_callback_read, state);
+            }
+            if (has_w) {
+                wf = janet_fiber(fn, 64, 0, NULL);
+                janet_gcroot(janet_wrap_fiber(wf));
+                StateWrite *state = janet_malloc(sizeof(StateWrite));     /* as janet_ev_write_generic */
+                state->is_buffer = 0;
+                state->src.str = src;
+                state->dest_abst = NULL;
+                state->mode = snd ? JANET_ASYNC_WRITEMODE_SEND : JANET_ASYNC_WRITEMODE_WRITE;
+                state->flags = 0;
+                state->start = 0;
+                wd_src = src; wd_srclen = len;
+                janet_async_start_fiber(wf, st, JANET_ASYNC_LISTEN_WRITE, ev_callback_write, state);
+            }
+            printf(" | I");
+        } else {
+            wd_inject = 1;
+            wd_inject_mask = words[s];
+            wd_inject_ptr = st;
+            janet_loop1_impl(0, 0);
+            printf(" | %u", words[s]);
+        }
+        char rout[256], wout[256];
+        wd_tasks(rf, wf, rout, wout, sizeof rout);
+        int rdone = !rf || rf->ev_callback == NULL, wdone = !wf || wf->ev_callback == NULL;
+        printf(" r=%s w=%s >", wd_ralog[0] ? wd_ralog : "-", wd_walog[0] ? wd_walog : "-");
+        if (has_r) {
+            StateRead *sr = rdone ? NULL : (StateRead *) rf->ev_state;
+            printf(" R:%s:done=%d:read=%d:left=%d:count=%d:slot=%d:calls=%s", rout, rdone, sr ? sr->bytes_read : -1, sr ? sr->bytes_left : -1,
+                   buf->count, st->read_fiber == rf, wd_rlog[0] ? wd_rlog : "-");
+        }
+        if (has_w) {
+            StateWrite *sw = wdone ? NULL : (StateWrite *) wf->ev_state;
+            printf(" W:%s:done=%d:start=%d:slot=%d:calls=%s", wout, wdone, sw ? sw->start : -1, st->write_fiber == wf, wd_wlog[0] ? wd_wlog : "-");
+        }
+        if (rdone && wdone) break;
+    }
+    /* byte-exactness, independent of the model: the buffer holds exactly the first bytes of the arrival pattern, the sink exactly a prefix of the source */
+    int okr = 1, okw = 1;
+    for (int32_t i = 0; i < buf->count; i++) if (buf->data[i] != (i < base ? 0xEE : wd_pat(i - base))) okr = 0;
+    for (long i = 0; i < wd_sinklen; i++) if (i >= len || wd_sink[i] != src[i]) okw = 0;
+    printf(" | END handed=%ld appended=%d bytesok=%d sink=%ld sinkok=%d\n", wd_rpos, buf->count - base, okr, wd_sinklen, okw);
+    if (rf && rf->ev_callback) janet_async_end(rf);
+    if (wf && wf->ev_callback) janet_async_end(wf);
+    wd_fd = -1;
+    wd_buf = NULL; wd_src = NULL;
+    JanetTask t;
+    while (!janet_q_pop(&janet_vm.spawn, &t, sizeof(t))) janet_table_remove(&janet_vm.active_tasks, janet_wrap_fiber(t.fiber));
+    janet_stream_close(st);
+    __real_close(sp[1]);
+    janet_gcunroot(janet_wrap_abstract(st));
+    janet_gcunroot(janet_wrap_buffer(buf));
+    janet_gcunroot(janet_wrap_string(src));
+    if (rf) janet_gcunroot(janet_wrap_fiber(rf));
+    if (wf) janet_gcunroot(janet_wrap_fiber(wf));
+}
+
+#define WD_MAXSTEPS 12
+static void wd_gen_plan(char *out, size_t cap, int is_read, int32_t room) {
+    out[0] = 0;
+    int k = (int)(rnd() % 4);
+    for (int i = 0; i < k; i++) {
+        int c = (int)(rnd() % 10);
+        if (c < 5) {
+            int32_t v = (rnd() % 3 == 0) ? room + (int32_t)(rnd() % 3) : 1 + (int32_t)(rnd() % (room > 1 ? room : 1));
+            if (rnd() % 9 == 0) v = 0;
+            if (rnd() % 5 == 0) v = 1 + (int32_t)(rnd() % 9000);
+            wd_app(out, cap, "%sb%d", out[0] ? "," : "", v);
+        } else if (c < 7) wd_app(out, cap, "%sa", out[0] ? "," : "");
+        else if (c < 8) wd_app(out, cap, "%si", out[0] ? "," : "");
+        else wd_app(out, cap, "%se%d", out[0] ? "," : "", is_read ? (rnd() % 2 ? 104 : 32) : (rnd() % 2 ? 32 : 104));
+    }
+}
+
+static int worddrive_main(int argc, char **argv) {
+    int fromstdin = !strcmp(argv[1], "--wordseq");
+    uint64_t seed = argc > 2 ? strtoull(argv[2], NULL, 10) : 1;
+    int ncases = argc > 3 ? atoi(argv[3]) : 100;
+    rng_s = seed * 0x9E3779B97F4A7C15ULL + 1234577;
+    janet_init();
+    JanetTable *env = janet_core_env(NULL);
+    Janet fv;
+    if (janet_dostring(env, "(fn [&opt x] nil)", "worddrive", &fv) || !janet_checktype(fv, JANET_FUNCTION)) { printf("SETUP-FAILED\n"); return 3; }
+    janet_gcroot(fv);
+    JanetFunction *fn = janet_unwrap_function(fv);
+    static char rbuf[WD_MAXSTEPS][256], wbuf[WD_MAXSTEPS][256];
+    char *rplans[WD_MAXSTEPS], *wplans[WD_MAXSTEPS];
+    uint32_t words[WD_MAXSTEPS];
+    for (int i = 0; i < WD_MAXSTEPS; i++) { rplans[i] = rbuf[i]; wplans[i] = wbuf[i]; }
+    int done = 0;
+    if (fromstdin) {
+        static char line[8192];
+        while (fgets(line, sizeof line, stdin)) {
+            char rr[8], ww[8];
+            int chunk, recv, n, base, snd, len, used = 0;
+            if (sscanf(line, "D %7s %d %d %d %d %7s %d %d%n", rr, &chunk, &recv, &n, &base, ww, &snd, &len, &used) != 8) continue;
+            int ns = 0;
+            char *p = line + used;
+            while ((p = strchr(p, '|')) && ns < WD_MAXSTEPS) {
+                p++;
+                char wtok[32], rp[256], wp[256];
+                if (sscanf(p, " %31s r=%255s w=%255s", wtok, rp, wp) != 3) break;
+                words[ns] = wtok[0] == 'I' ? 0 : (uint32_t) strtoul(wtok, NULL, 0);
+                snprintf(rbuf[ns], sizeof rbuf[ns], "%s", strcmp(rp, "-") ? rp : "");
+                snprintf(wbuf[ns], sizeof wbuf[ns], "%s", strcmp(wp, "-") ? wp : "");
+                ns++;
+            }
+            if (ns) { wd_run_case(fn, rr[0] == 'r', chunk, recv, n, base, ww[0] == 'w', snd, len, ns, words, rplans, wplans); done++; }
+        }
+    } else {
+        static const uint32_t bits[] = { EPOLLIN, EPOLLOUT, EPOLLERR, EPOLLHUP };
+        for (int k = 0; k < ncases; k++) {
+            int which = (int)(rnd() % 4);              /* 0,1 reader only; 2 writer only; 3 both */
+            int has_r = which != 2, has_w = which >= 2;
+            int chunk = (int)(rnd() % 2), recv = (int)(rnd() % 2), snd = (int)(rnd() % 2);
+            int32_t n = 1 + (int32_t)(rnd() % (rnd() % 3 ? 40 : 12000)), base = (int32_t)(rnd() % 3 ? 0 : rnd() % 50);
+            int32_t len = 1 + (int32_t)(rnd() % (rnd() % 3 ? 40 : 9000));
+            int ns = 2 + (int)(rnd() % 6);
+            for (int s2 = 0; s2 < ns; s2++) {
+                uint32_t w = 0;
+                for (int b = 0; b < 4; b++) if (rnd() % 2) w |= bits[b];
+                if (rnd() % 4 == 0) w |= EPOLLRDHUP;
+                if (rnd() % 16 == 0) w |= EPOLLPRI;
+                words[s2] = w;
+                wd_gen_plan(rbuf[s2], sizeof rbuf[s2], 1, n);
+                wd_gen_plan(wbuf[s2], sizeof wbuf[s2], 0, len);
+                if (s2 == 0 && rnd() % 4) { strcpy(rbuf[0], "a"); if (rnd() % 2) strcpy(wbuf[0], "a"); }   /* suspended first: the usual case */
+            }
+            wd_run_case(fn, has_r, chunk, recv, n, base, has_w, snd, len, ns, words, rplans, wplans);
+            done++;
+            if (k % 64 == 63) janet_collect();
+        }
+    }
+    printf("DONE %d\n", done);
+    fflush(stdout);
+    janet_deinit();
+    return 0;
+}
+
 /* ------------------------------------------------------------------ connect(): planned answers for the next calls
  * (c16/connect-plan [x ...]): the next connect() calls are answered from the plan: 0 = the real call, -1 = EINTR (the real call
  * is NOT made), e > 0 = fails with errno e.  (c16/connect-stats) -> [calls made under the plan, closes of that descriptor]. */
@@ -745,6 +1036,22 @@ static Janet c16_burst_connect(int32_t argc, Janet *argv) {
         fds[i] = janet_wrap_integer(c);
     }
     return janet_wrap_tuple(janet_tuple_end(fds));
+}
+
+/* (c16/raw-write fd bytes) -> number of bytes written: plain blocking write() on a descriptor that is not a janet stream (the peer
+ * created by c16/burst-connect), repeated until everything is written or the kernel refuses */
+static Janet c16_raw_write(int32_t argc, Janet *argv) {
+    janet_fixarity(argc, 2);
+    int fd = janet_getinteger(argv, 0);
+    JanetByteView b = janet_getbytes(argv, 1);
+    int32_t off = 0;
+    while (off < b.len) {
+        ssize_t w = __real_write(fd, b.bytes + off, (size_t)(b.len - off));
+        if (w < 0 && errno == EINTR) continue;
+        if (w <= 0) break;
+        off += (int32_t) w;
+    }
+    return janet_wrap_integer(off);
 }
 
 /* (c16/close-fd fd) */
@@ -863,6 +1170,7 @@ static const JanetReg c16_cfuns[] = {
     {"c16/sockbuf", c16_sockbuf, NULL},
     {"c16/stall-listener", c16_stall_listener, NULL},
     {"c16/close-fd", c16_close_fd, NULL},
+    {"c16/raw-write", c16_raw_write, NULL},
     {"c16/burst-connect", c16_burst_connect, NULL},
     {"c16/connect-plan", c16_connect_plan, NULL},
     {"c16/connect-stats", c16_connect_stats, NULL},
@@ -873,6 +1181,7 @@ int main(int argc, char **argv) {
     if (argc >= 3 && !strcmp(argv[1], "--fdlist")) return child_main(argc, argv);
     c16_init();
     if (argc >= 2 && (!strcmp(argv[1], "--netdrive") || !strcmp(argv[1], "--netseq"))) return netdrive_main(argc, argv);
+    if (argc >= 2 && (!strcmp(argv[1], "--worddrive") || !strcmp(argv[1], "--wordseq"))) return worddrive_main(argc, argv);
     /* signal dispositions are left exactly as src/mainclient/shell.c leaves them (it installs none): the harness must be the
      * same program as the `janet` client as far as SIGPIPE is concerned */
     janet_init();
